@@ -52,3 +52,9 @@ open SamVerif.IntRange SamVerif.Assign SamVerif.Gates SamVerif.Scope SamVerif.C0
 #print axioms static_error_never_compiled
 #print axioms nonexhaustive_match_never_compiled
 #print axioms exhaustive_match_no_error
+#print axioms non_function_call_rejected
+#print axioms member_object_gate
+#print axioms field_tyargs_gate
+#print axioms class_as_supertype_rejected
+#print axioms function_in_interface_rejected
+#print axioms rebind_reported
